@@ -25,6 +25,10 @@ pub assume_specification[ u64::next_power_of_two ](x: u64) -> (r: u64)
     requires x <= 0x4000_0000_0000_0000
     ensures is_pow2(r as nat), r >= x, r >= 1, x >= 1 ==> r < 2 * x, x == 0 ==> r == 1;
 
+/// T3: u64::is_power_of_two (std)
+pub assume_specification[ u64::is_power_of_two ](x: u64) -> (r: bool)
+    ensures r == is_pow2(x as nat);
+
 // ---- R5 targets -------------------------------------------------------------------------------
 /// `panic!/unimplemented!/unreachable!` sites: must be unreachable
 #[verifier::external_body]
